@@ -1,0 +1,19 @@
+//go:build verif
+
+package net
+
+import (
+	"github.com/ipfs/boxo/blockservice"
+	"github.com/ipfs/boxo/exchange/offline"
+	"github.com/sourcenetwork/corekv"
+
+	"github.com/sourcenetwork/defradb/internal/datastore"
+)
+
+// VerifOfflineBlockService returns a block service over the block store of the given root store that
+// never fetches from the network (build tag verif): what the DAG-sync entry point sees when every
+// linked block has already been delivered.
+func VerifOfflineBlockService(rootstore corekv.Store) blockservice.BlockService {
+	bs := datastore.BlockstoreFrom(rootstore)
+	return blockservice.New(bs, offline.Exchange(bs))
+}
